@@ -1419,6 +1419,31 @@ def _c16_worker(job):
                     # finding F11 (call site: get_webentity_pagelinks_iter resolves the other end of a link after its yields)
                     out["f11"] = {"link": extra[0], "flags": [sp[3], sp[4], sp[5]], "script": K.ser_cmds(s.cmds)}
                     out["stats_extra"] = out.get("stats_extra", 0) + 1
+        # read-only requests interleaved with each other: each must answer what it answers alone
+        if not out["fault"] and not getattr(s, "dead", False):
+            wes = s.webentities()
+            if wes:
+                ro = []
+                for _k in range(rng.randint(2, 3)):
+                    w = rng.choice(list(wes))
+                    ps = list(wes[w])
+                    ro.append(rng.choice([["pages", w, ps], ["crawled", w, ps], ["most", w, ps, rng.choice([1, 2, 5]), rng.choice([None, 0, 1])],
+                                          ["children", w, ps], ["plinks", w, ps, rng.randint(0, 1), 1, rng.randint(0, 1)],
+                                          ["outlinks", w, ps], ["inlinks", w, ps], ["outlinks", w, ps], ["inlinks", w, ps],
+                                          ["net", rng.randint(0, 1), rng.randint(0, 1)], ["netslow", rng.randint(0, 1), rng.randint(0, 1)]]))
+                rsched = [rng.randrange(len(ro)) for _k in range(rng.randint(2, 40))]
+                rr = s.impl.interleave_ro(ro, rsched)
+                out["ro_interleavings"] = 1
+                if isinstance(rr, I.Crash):
+                    out["fault"] = {"what": "read-only requests interleaved with each other failed: %s" % rr.detail,
+                                    "ro_specs": repr(ro), "ro_sched": rsched}
+                elif rr is not I.REFUSED:
+                    for k, (a, b) in enumerate(zip(*rr)):
+                        if a != b:
+                            out["fault"] = {"what": "read-only request %r interleaved with other read-only requests answers %r, alone %r"
+                                                    % (ro[k][0], a if a is None else a[:4], b if b is None else b[:4]),
+                                            "ro_specs": repr(ro), "ro_sched": rsched}
+                            break
         s.do(43, [])
         s.do(44, [])
         mm = s.finish(bytes_facet=False)
@@ -1434,7 +1459,8 @@ def _c16_worker(job):
                         "page_queries": sum(1 for x in specs if x[0] == 2),
                         "network_queries": sum(1 for x in specs if x[0] == 3),
                         "pagelink_queries": sum(1 for x in specs if x[0] == 4),
-                        "pagelink_items_outside_every_moment": out.pop("stats_extra", 0)}
+                        "pagelink_items_outside_every_moment": out.pop("stats_extra", 0),
+                        "read_only_interleavings": out.pop("ro_interleavings", 0)}
         out["digest"] = hash((tuple(K.ser_cmds(s.cmds[:3])), I.fmt(specs), tuple(sched))) & 0xFFFFFFFF
         if out["fault"] or out["mismatches"]:
             out["script"] = K.ser_cmds(s.cmds)
@@ -1574,7 +1600,8 @@ def c16_runner(prop, tier, seed, replay):
             break
     for r in results:
         if r.get("fault"):
-            violations.append({"property": prop, "failing_input": True, "seed": r["seed"], "job": r.get("job"), "what": r["fault"]["what"], "script": r.get("script")})
+            violations.append({"property": prop, "failing_input": True, "seed": r["seed"], "job": r.get("job"), "what": r["fault"]["what"],
+                               "script": r.get("script"), "read_only_requests": r["fault"].get("ro_specs"), "read_only_schedule": r["fault"].get("ro_sched")})
             break
     known = []
     import check_main as M
